@@ -245,7 +245,11 @@ def rule_limit(facts):
 
 def run(ctx):
     facts = ctx["facts"]
-    return [rule_range(facts), rule_count(facts), rule_limit(facts)]
+    from .c08 import rule_idxspace
+    # merging sorted runs only happens with ≥ 2 partitions / batches: an index-space mix-up in the merge comparators leaves
+    # single-run sorts intact and changes the order (or the LIMIT slice) only for some configurations
+    merge = rule_idxspace(facts, rule="C03-MERGEIDX", only=lambda fid: "::sort::binary_merge" in fid or "::sort::merge" in fid or "merge_queue" in fid, floor=4)
+    return [rule_range(facts), rule_count(facts), rule_limit(facts), merge]
 
 
 CLAIM = {
